@@ -19,6 +19,25 @@ Tags on `WF` clauses:  (i) attr validator/converter of the class · (ii) on-disk
 NOT of kind (i)-(iii)*: each (F) clause is a finding candidate, run on the real code by
 harness/props/C01.py and listed in findings.d/C01.json.
 
+For whoever builds C02 / C06 on top of this reader (all readers are `Codec.R α = data → pos → Except Err (α × pos)`):
+* primitives (Model/Codec.lean): `readN` (read_fmt: exact or IOError), `readUpTo` / `readAll` / `readPy` (`fp.read`:
+  lenient; negative = to the end), `isReadable n d p` (looks at the whole stream), `readU/readI16/readI32`,
+  `readPadding` (lenient), `readLenBlock skip w pad` (IOError on a short body), `readPascal pad` (AssertionError on a
+  short body), `readCount`, `readFor`, `readWhile cond item` (fuel = remaining bytes + 1; `Err.other` is unreachable
+  because every item consumes ≥ 1 byte or raises), `optItem`, `odict` (duplicate keys collapse like `OrderedDict`).
+* `fp.seek(q)` is "return position `q`": `LayerInfo.dec` and `LayerAndMask.dec` return `endPos` whatever the body
+  consumed (`assert fp.tell() <= end_pos` → `.assertionError` in `LayerInfo.dec` only); `GlobalLayerMaskInfo.dec`
+  returns its *start* position for a block shorter than 13 bytes (the rewind); `TaggedBlock.dec` returns `none` with the
+  cursor restored on a bad signature. A position may exceed `data.length` (BytesIO semantics: later reads see nothing).
+* `with io.BytesIO(block)` is a nested run `reader block 0` whose final position is dropped (`resourcesDec`, `maskDec`,
+  `BlendingRanges.dec`, `LayerRecord.dec` → `extraDec`, `GlobalLayerMaskInfo.dec`).
+* the gates: `LayerAndMask.bodyDec` (`isReadable 17 ∧ p < endPos`, then `isReadable 1`), `taggedCond endPos`
+  (`isReadable 8 ∧ p < endPos`), `BlendingRanges.dec` (`isReadable 8`), `resourcesDec` (`isReadable 4`),
+  `MaskData.bodyDec length` (`length ≥ 36`), `ChannelData.dec ciLength` (`readPy (ciLength - 2)`).
+* validators/converters are `if … ∈ G.table then … else .error .valueError` at the place the constructor runs.
+* laws: `Lemmas/Codec.lean` (`At d p bs`, `…_step` lemmas), `Lemmas/CodecPsd{1,2,3}.lean` (`X.dec_at` / `X.dec_step`).
+  `dec` can return values outside `WF` (exactly the (F) clauses below): C02's `dec_wf` is not proved here.
+
 Core Lean only.
 -/
 import PsdVerif.Model.Codec
